@@ -1609,7 +1609,8 @@ class ResultsPage(object):
             raise ValueError("pagenum must be >= 1")
 
         self.pagecount = int(ceil(self.total / pagelen))
-        self.pagenum = min(self.pagecount, pagenum)
+        # (an empty result still has a first, empty, page)
+        self.pagenum = max(1, min(self.pagecount, pagenum))
 
         offset = (self.pagenum - 1) * pagelen
         if (offset + pagelen) > self.total:
